@@ -8,11 +8,20 @@ From Coq Require Import List Bool Arith ZArith Lia.
 From OmplV Require Import ControlModel ControlProofs RrtModel LedgerProofs.
 Import ListNotations.
 
-Section TreeP.
-  Variables St D I E : Type.
+Section NearestP.
+  Variables St D E : Type.
   Variable dist : St -> St -> D.
   Variable dlt : D -> D -> bool.
-  Variable target : I -> St.
+  Lemma nearest_from_lt : forall t q j best bd, (best < j)%nat -> (nearest_from St D E dist dlt t q j best bd < j + length t)%nat.
+  Proof. induction t as [|[s p] t IH]; intros q j best bd H; cbn [nearest_from length]; [lia|]. destruct (dlt (dist s q) bd); [specialize (IH q (S j) j (dist s q) ltac:(lia))|specialize (IH q (S j) best bd ltac:(lia))]; lia. Qed.
+  Lemma nearest_lt tree q : tree <> [] -> (nearest St D E dist dlt tree q < length tree)%nat.
+  Proof. destruct tree as [|[s p] t]; [congruence|]. intros _. cbn [RrtModel.nearest length]. pose proof (nearest_from_lt t q 1 0 (dist s q) ltac:(lia)). lia. Qed.
+End NearestP.
+
+Section TreeP.
+  Variables St D I E : Type.
+  Variable dlt : D -> D -> bool.
+  Variable select : list (St * option (nat * E)) -> I -> nat.
   Variable extend : St -> I -> option (St * E).
   Variable sat : St -> bool.
   Variable gdist : St -> D.
@@ -21,16 +30,11 @@ Section TreeP.
   Hypothesis dlt_irrefl : forall a, dlt a a = false.
   Variable EdgeOk : St -> E -> St -> Prop.
   Hypothesis extend_ok : forall n i s e, extend n i = Some (s, e) -> EdgeOk n e s.
+  Hypothesis select_lt : forall tree i, tree <> [] -> (select tree i < length tree)%nat.
   Notation node := (node St E).
-  Notation nearest := (nearest St D E dist dlt).
-  Notation tree_step := (tree_step St D I E dist dlt target extend sat gdist dflt).
-  Notation tree_loop := (tree_loop St D I E dist dlt target extend sat gdist dflt).
+  Notation tree_step := (tree_step St D I E dlt select extend sat gdist dflt).
+  Notation tree_loop := (tree_loop St D I E dlt select extend sat gdist dflt).
   Notation r_tree := (r_tree St D E). Notation r_approx := (r_approx St D E). Notation r_sol := (r_sol St D E).
-
-  Lemma nearest_from_lt : forall t q j best bd, (best < j)%nat -> (nearest_from St D E dist dlt t q j best bd < j + length t)%nat.
-  Proof. induction t as [|[s p] t IH]; intros q j best bd H; cbn [nearest_from length]; [lia|]. destruct (dlt (dist s q) bd); [specialize (IH q (S j) j (dist s q) ltac:(lia))|specialize (IH q (S j) best bd ltac:(lia))]; lia. Qed.
-  Lemma nearest_lt tree q : tree <> [] -> (nearest tree q < length tree)%nat.
-  Proof. destruct tree as [|[s p] t]; [congruence|]. intros _. cbn [RrtModel.nearest length]. pose proof (nearest_from_lt t q 1 0 (dist s q) ltac:(lia)). lia. Qed.
 
   Variable nstarts : nat.                    (* the size of the tree when the current call of solve() entered its loop *)
   Variable starts : list St.
@@ -63,9 +67,9 @@ Section TreeP.
 
   Lemma step_inv s i : r_tree s <> [] -> r_sol s = None -> TInv (r_tree s) -> AInv s -> TInv (r_tree (tree_step s i)) /\ AInv (tree_step s i) /\ r_tree (tree_step s i) <> [].
   Proof.
-    intros Hne Hsol T A. unfold RrtModel.tree_step. set (tree := r_tree s) in *. set (ni := nearest tree (target i)). set (ns := fst (nth ni tree (dflt, None))).
+    intros Hne Hsol T A. unfold RrtModel.tree_step. set (tree := r_tree s) in *. set (ni := select tree i). set (ns := fst (nth ni tree (dflt, None))).
     destruct (extend ns i) as [[ds e]|] eqn:Em; [|auto].
-    assert (Hni : (ni < length tree)%nat) by (apply nearest_lt; exact Hne).
+    assert (Hni : (ni < length tree)%nat) by (apply select_lt; exact Hne).
     assert (T' : TInv (tree ++ [(ds, Some (ni, e))])).
     { destruct T as (T1 & T2). split.
       - intros k x Hk. rewrite nth_error_snoc in Hk. destruct (k <? length tree)%nat; [apply (T1 k x Hk)|]. destruct (k =? length tree)%nat; discriminate.
@@ -139,16 +143,16 @@ Definition report_ok (St D E : Type) (sat : St -> bool) (gdist : St -> D) (dlt :
        else sat (snd (last path (None, dflt))) = true)
   | None => length tree = base
   end.
-Theorem tree_call_spec : forall (St D I E : Type) dist (dlt : D -> D -> bool) (target : I -> St) extend sat gdist (dflt : St) (EdgeOk : St -> E -> St -> Prop),
+Theorem tree_call_spec : forall (St D I E : Type) (dlt : D -> D -> bool) (select : list (St * option (nat * E)) -> I -> nat) extend sat gdist (dflt : St) (EdgeOk : St -> E -> St -> Prop),
   (forall a b c, dlt a b = true -> dlt b c = true -> dlt a c = true) -> (forall a, dlt a a = false) ->
-  (forall n i s e, extend n i = Some (s, e) -> EdgeOk n e s) ->
+  (forall n i s e, extend n i = Some (s, e) -> EdgeOk n e s) -> (forall tree i, tree <> [] -> (select tree i < length tree)%nat) ->
   forall starts tree0 new_starts ins, TInv St E EdgeOk starts tree0 -> (forall x, In x new_starts -> In x starts) ->
   let init := tree0 ++ map (fun x => (x, None)) new_starts in
-  let tree := fst (tree_call St D I E dist dlt target extend sat gdist dflt tree0 new_starts ins) in
+  let tree := fst (tree_call St D I E dlt select extend sat gdist dflt tree0 new_starts ins) in
   TInv St E EdgeOk starts tree /\ (exists ext, tree = init ++ ext) /\
-  (init <> [] -> report_ok St D E sat gdist dlt dflt EdgeOk starts (length init) tree (snd (tree_call St D I E dist dlt target extend sat gdist dflt tree0 new_starts ins))).
+  (init <> [] -> report_ok St D E sat gdist dlt dflt EdgeOk starts (length init) tree (snd (tree_call St D I E dlt select extend sat gdist dflt tree0 new_starts ins))).
 Proof.
-  intros St D I E dist dlt target extend sat gdist dflt EdgeOk Htr Hir Hex starts tree0 new_starts ins HT Hn. cbn zeta. unfold tree_call.
+  intros St D I E dlt select extend sat gdist dflt EdgeOk Htr Hir Hex Hsel starts tree0 new_starts ins HT Hn. cbn zeta. unfold tree_call.
   set (init := tree0 ++ map (fun x => (x, None)) new_starts).
   assert (T0 : TInv St E EdgeOk starts init).
   { destruct HT as (T1 & T2). split.
@@ -161,8 +165,8 @@ Proof.
   set (init := n0 :: rest) in *.
   set (s0 := mkR St D E init None None).
   assert (A0 : AInv St D E dlt sat gdist dflt (length init) s0) by (unfold AInv; cbn [r_tree r_approx r_sol s0]; auto).
-  destruct (loop_inv St D I E dist dlt target extend sat gdist dflt Htr Hir EdgeOk Hex (length init) starts ins s0) as (T & A & (ext & E0)); [cbn; discriminate|exact T0|exact A0|].
-  set (fin := RrtModel.tree_loop St D I E dist dlt target extend sat gdist dflt s0 ins) in *. cbn [fst snd]. split; [exact T|]. split; [exists ext; exact E0|]. intros _.
+  destruct (loop_inv St D I E dlt select extend sat gdist dflt Htr Hir EdgeOk Hex Hsel (length init) starts ins s0) as (T & A & (ext & E0)); [cbn; discriminate|exact T0|exact A0|].
+  set (fin := RrtModel.tree_loop St D I E dlt select extend sat gdist dflt s0 ins) in *. cbn [fst snd]. split; [exact T|]. split; [exists ext; exact E0|]. intros _.
   unfold AInv in A. destruct A as (AB & A). unfold report_ok. destruct (r_approx St D E fin) as [[bi bd]|] eqn:Ea.
   - destruct A as (A1 & A2 & A3).
     assert (CH : forall i, (i < length (r_tree St D E fin))%nat -> let c := chain St E (S (length (r_tree St D E fin))) (r_tree St D E fin) i in
@@ -179,44 +183,44 @@ Qed.
 Lemma TInv_nil (St E : Type) (EdgeOk : St -> E -> St -> Prop) starts : TInv St E EdgeOk starts [].
 Proof. split; [intros i s H|intros i s p e H]; destruct i; discriminate. Qed.
 (* the first call *)
-Theorem tree_solve_spec : forall (St D I E : Type) dist (dlt : D -> D -> bool) (target : I -> St) extend sat gdist (dflt : St) (EdgeOk : St -> E -> St -> Prop),
+Theorem tree_solve_spec : forall (St D I E : Type) (dlt : D -> D -> bool) (select : list (St * option (nat * E)) -> I -> nat) extend sat gdist (dflt : St) (EdgeOk : St -> E -> St -> Prop),
   (forall a b c, dlt a b = true -> dlt b c = true -> dlt a c = true) -> (forall a, dlt a a = false) ->
-  (forall n i s e, extend n i = Some (s, e) -> EdgeOk n e s) ->
+  (forall n i s e, extend n i = Some (s, e) -> EdgeOk n e s) -> (forall tree i, tree <> [] -> (select tree i < length tree)%nat) ->
   forall starts ins, starts <> [] ->
-  let tree := fst (tree_solve St D I E dist dlt target extend sat gdist dflt starts ins) in
+  let tree := fst (tree_solve St D I E dlt select extend sat gdist dflt starts ins) in
   TInv St E EdgeOk starts tree /\ (exists ext, tree = map (fun x => (x, None)) starts ++ ext) /\
-  report_ok St D E sat gdist dlt dflt EdgeOk starts (length starts) tree (snd (tree_solve St D I E dist dlt target extend sat gdist dflt starts ins)).
+  report_ok St D E sat gdist dlt dflt EdgeOk starts (length starts) tree (snd (tree_solve St D I E dlt select extend sat gdist dflt starts ins)).
 Proof.
-  intros St D I E dist dlt target extend sat gdist dflt EdgeOk Htr Hir Hex starts ins Hs. unfold tree_solve.
-  destruct (tree_call_spec St D I E dist dlt target extend sat gdist dflt EdgeOk Htr Hir Hex starts [] starts ins (TInv_nil St E EdgeOk starts) (fun x H => H)) as (A & B & C).
+  intros St D I E dlt select extend sat gdist dflt EdgeOk Htr Hir Hex Hsel starts ins Hs. unfold tree_solve.
+  destruct (tree_call_spec St D I E dlt select extend sat gdist dflt EdgeOk Htr Hir Hex Hsel starts [] starts ins (TInv_nil St E EdgeOk starts) (fun x H => H)) as (A & B & C).
   cbn [app] in *. split; [exact A|]. split; [exact B|]. rewrite <- (map_length (fun x : St => (x, @None (nat * E))) starts). apply C. destruct starts; [congruence|discriminate].
 Qed.
 (* any number of solve() calls without clear(): the tree keeps its invariant and only grows, and every call's report is real *)
-Theorem tree_calls_spec : forall (St D I E : Type) dist (dlt : D -> D -> bool) (target : I -> St) extend sat gdist (dflt : St) (EdgeOk : St -> E -> St -> Prop),
+Theorem tree_calls_spec : forall (St D I E : Type) (dlt : D -> D -> bool) (select : list (St * option (nat * E)) -> I -> nat) extend sat gdist (dflt : St) (EdgeOk : St -> E -> St -> Prop),
   (forall a b c, dlt a b = true -> dlt b c = true -> dlt a c = true) -> (forall a, dlt a a = false) ->
-  (forall n i s e, extend n i = Some (s, e) -> EdgeOk n e s) ->
+  (forall n i s e, extend n i = Some (s, e) -> EdgeOk n e s) -> (forall tree i, tree <> [] -> (select tree i < length tree)%nat) ->
   forall starts calls tree0 new_starts, TInv St E EdgeOk starts tree0 -> (forall x, In x new_starts -> In x starts) -> tree0 ++ map (fun x => (x, None)) new_starts <> [] ->
-  let res := tree_calls St D I E dist dlt target extend sat gdist dflt tree0 new_starts calls in
+  let res := tree_calls St D I E dlt select extend sat gdist dflt tree0 new_starts calls in
   TInv St E EdgeOk starts (fst res) /\
   Forall (fun rep => exists base tree, report_ok St D E sat gdist dlt dflt EdgeOk starts base tree rep /\ TInv St E EdgeOk starts tree /\ exists ext, fst res = tree ++ ext) (snd res).
 Proof.
-  intros St D I E dist dlt target extend sat gdist dflt EdgeOk Htr Hir Hex starts calls.
+  intros St D I E dlt select extend sat gdist dflt EdgeOk Htr Hir Hex Hsel starts calls.
   induction calls as [|ins rest IH]; intros tree0 new_starts HT Hn Hne; cbn [tree_calls].
   - cbn [fst snd]. split; [|constructor].
-    destruct (tree_call_spec St D I E dist dlt target extend sat gdist dflt EdgeOk Htr Hir Hex starts tree0 new_starts [] HT Hn) as (A & _). cbn zeta in A.
+    destruct (tree_call_spec St D I E dlt select extend sat gdist dflt EdgeOk Htr Hir Hex Hsel starts tree0 new_starts [] HT Hn) as (A & _). cbn zeta in A.
     unfold tree_call in A. destruct (tree0 ++ map (fun x => (x, None)) new_starts) as [|n0 r0] eqn:Ei; [congruence|]. cbn [tree_loop r_sol fst] in A. exact A.
-  - destruct (tree_call_spec St D I E dist dlt target extend sat gdist dflt EdgeOk Htr Hir Hex starts tree0 new_starts ins HT Hn) as (A & (ext & B) & C). cbn zeta in A, B, C.
-    destruct (tree_call St D I E dist dlt target extend sat gdist dflt tree0 new_starts ins) as [t1 rep] eqn:E1. cbn [fst snd] in A, B, C.
+  - destruct (tree_call_spec St D I E dlt select extend sat gdist dflt EdgeOk Htr Hir Hex Hsel starts tree0 new_starts ins HT Hn) as (A & (ext & B) & C). cbn zeta in A, B, C.
+    destruct (tree_call St D I E dlt select extend sat gdist dflt tree0 new_starts ins) as [t1 rep] eqn:E1. cbn [fst snd] in A, B, C.
     assert (N1 : t1 ++ map (fun x => (x, @None (nat * E))) [] <> []) by (rewrite B; cbn [map]; rewrite app_nil_r; destruct (tree0 ++ map (fun x => (x, None)) new_starts); [congruence|discriminate]).
     destruct (IH t1 [] A (fun x H => match H with end) N1) as (X & Y). cbn zeta in X, Y.
-    destruct (tree_calls St D I E dist dlt target extend sat gdist dflt t1 [] rest) as [t2 reps] eqn:E2. cbn [fst snd] in *. split; [exact X|]. constructor; [|exact Y].
+    destruct (tree_calls St D I E dlt select extend sat gdist dflt t1 [] rest) as [t2 reps] eqn:E2. cbn [fst snd] in *. split; [exact X|]. constructor; [|exact Y].
     exists (length (tree0 ++ map (fun x => (x, None)) new_starts)), t1. split; [apply C; exact Hne|]. split; [exact A|].
     (* the final tree extends t1 *)
-    clear - E2 Htr Hir Hex A N1. revert t1 t2 reps E2 A N1. induction rest as [|i2 r2 IH2]; intros t1 t2 reps E2 A N1; cbn [tree_calls] in E2.
+    clear - E2 Htr Hir Hex Hsel A N1. revert t1 t2 reps E2 A N1. induction rest as [|i2 r2 IH2]; intros t1 t2 reps E2 A N1; cbn [tree_calls] in E2.
     + injection E2 as <- _. cbn [map]. exists []. reflexivity.
-    + destruct (tree_call_spec St D I E dist dlt target extend sat gdist dflt EdgeOk Htr Hir Hex starts t1 [] i2 A (fun x H => match H with end)) as (A' & (e1 & B') & _). cbn zeta in A', B'.
-      destruct (tree_call St D I E dist dlt target extend sat gdist dflt t1 [] i2) as [t1' rep'] eqn:E1'. cbn [fst] in A', B'.
-      destruct (tree_calls St D I E dist dlt target extend sat gdist dflt t1' [] r2) as [t2' reps'] eqn:E2'. injection E2 as <- _.
+    + destruct (tree_call_spec St D I E dlt select extend sat gdist dflt EdgeOk Htr Hir Hex Hsel starts t1 [] i2 A (fun x H => match H with end)) as (A' & (e1 & B') & _). cbn zeta in A', B'.
+      destruct (tree_call St D I E dlt select extend sat gdist dflt t1 [] i2) as [t1' rep'] eqn:E1'. cbn [fst] in A', B'.
+      destruct (tree_calls St D I E dlt select extend sat gdist dflt t1' [] r2) as [t2' reps'] eqn:E2'. injection E2 as <- _.
       assert (N1' : t1' ++ map (fun x => (x, @None (nat * E))) [] <> []) by (rewrite B'; cbn [map] in *; rewrite !app_nil_r in *; destruct t1; [congruence|discriminate]).
       destruct (IH2 t1' t2' reps' E2' A' N1') as (e2 & F). exists (e1 ++ e2). rewrite F, B'. cbn [map]. rewrite app_nil_r, app_assoc. reflexivity.
 Qed.
@@ -244,11 +248,13 @@ Section RrtG.
   Lemma last_map_snd : forall (l : list (option unit * St)), l <> [] -> last (map snd l) dflt = snd (last l (None, dflt)).
   Proof. induction l as [|a t IH]; intros H; [congruence|]. destruct t as [|b t']; [reflexivity|]. change (last (map snd (b :: t')) dflt = snd (last (b :: t') (None, dflt))). apply IH. discriminate. Qed.
 
-  Theorem rrt_solve_spec : forall starts hits samples, starts <> [] ->
-    let tree := fst (rrt_solve St D dist dlt steer mv sat gdist goal_state dflt starts hits samples) in
+  Theorem geo_solve_spec : forall (I : Type) (select : list (St * option (nat * unit)) -> I -> nat) (tg : I -> St),
+    (forall tree i, tree <> [] -> (select tree i < length tree)%nat) ->
+    forall starts ins, starts <> [] ->
+    let tree := fst (geo_solve St D dlt steer mv sat gdist dflt I select tg starts ins) in
     (forall i s, nth_error tree i = Some (s, None) -> In s starts) /\
     (forall i s p, nth_error tree i = Some (s, Some p) -> (p < i)%nat /\ exists ps pp, nth_error tree p = Some (ps, pp) /\ mv ps s = true) /\
-    match snd (rrt_solve St D dist dlt steer mv sat gdist goal_state dflt starts hits samples) with
+    match snd (geo_solve St D dlt steer mv sat gdist dflt I select tg starts ins) with
     | Some (path, approx, dd) =>
         path <> [] /\ In (hd dflt path) starts /\ consecutive (fun a b => mv a b = true) path /\ dd = gdist (last path dflt) /\
         (exists i, (length starts <= i < length tree)%nat /\ last path dflt = fst (nth i tree (dflt, None))) /\
@@ -257,9 +263,9 @@ Section RrtG.
     | None => tree = map (fun x => (x, None)) starts
     end.
   Proof.
-    intros starts hits samples Hs. unfold rrt_solve.
-    pose proof (tree_solve_spec St D St unit dist dlt (fun r => r) (rrt_extend St steer mv) sat gdist dflt gEdge dlt_trans dlt_irrefl rrt_extend_ok starts (targets St goal_state dflt hits samples) Hs) as TS.
-    cbn zeta in TS. destruct (tree_solve St D St unit dist dlt (fun r => r) (rrt_extend St steer mv) sat gdist dflt starts (targets St goal_state dflt hits samples)) as [tree rep]. cbn [fst snd] in *.
+    intros I select tg Hsel starts ins Hs. unfold geo_solve.
+    pose proof (tree_solve_spec St D I unit dlt select (fun n i => rrt_extend St steer mv n (tg i)) sat gdist dflt gEdge dlt_trans dlt_irrefl (fun n i s e H => rrt_extend_ok n (tg i) s e H) Hsel starts ins Hs) as TS.
+    cbn zeta in TS. destruct (tree_solve St D I unit dlt select (fun n i => rrt_extend St steer mv n (tg i)) sat gdist dflt starts ins) as [tree rep]. cbn [fst snd] in *.
     destruct TS as ((T1 & T2) & (ext & EX) & R).
     assert (NM : forall i, nth_error (map (fun n : node St unit => (fst n, option_map fst (snd n))) tree) i = option_map (fun n => (fst n, option_map fst (snd n))) (nth_error tree i)) by (intros i; apply nth_error_map).
     assert (SA : forall j, fst (nth j (map (fun n : node St unit => (fst n, option_map fst (snd n))) tree) (dflt, None)) = state_at St unit dflt tree j).
@@ -274,6 +280,41 @@ Section RrtG.
         split; [apply pathOk_consecutive; exact R3|]. rewrite (last_map_snd path R1). split; [exact R4|]. split; [exists i; split; [exact R5|rewrite SA; exact R5']|].
         destruct approx; [destruct R6 as (R6 & R7); split; [exact R6|intros j Hj; rewrite SA; apply R7; exact Hj]|exact R6].
       + rewrite EX in R |- *. rewrite app_length, map_length in R. assert (ext = []) by (destruct ext; [reflexivity|cbn in R; lia]). subst ext. rewrite app_nil_r, map_map. reflexivity.
+  Qed.
+  Theorem rrt_solve_spec : forall starts hits samples, starts <> [] ->
+    let tree := fst (rrt_solve St D dist dlt steer mv sat gdist goal_state dflt starts hits samples) in
+    (forall i s, nth_error tree i = Some (s, None) -> In s starts) /\
+    (forall i s p, nth_error tree i = Some (s, Some p) -> (p < i)%nat /\ exists ps pp, nth_error tree p = Some (ps, pp) /\ mv ps s = true) /\
+    match snd (rrt_solve St D dist dlt steer mv sat gdist goal_state dflt starts hits samples) with
+    | Some (path, approx, dd) =>
+        path <> [] /\ In (hd dflt path) starts /\ consecutive (fun a b => mv a b = true) path /\ dd = gdist (last path dflt) /\
+        (exists i, (length starts <= i < length tree)%nat /\ last path dflt = fst (nth i tree (dflt, None))) /\
+        (if approx then sat (last path dflt) = false /\ forall j, (length starts <= j < length tree)%nat -> dlt (gdist (fst (nth j tree (dflt, None)))) dd = false
+         else sat (last path dflt) = true)
+    | None => tree = map (fun x => (x, None)) starts
+    end.
+  Proof.
+    intros starts hits samples Hs. unfold rrt_solve.
+    apply (geo_solve_spec St (fun tree r => nearest St D unit dist dlt tree r) (fun r => r) (fun tree r H => nearest_lt St D unit dist dlt tree r H) starts (targets St goal_state dflt hits samples) Hs).
+  Qed.
+  (* the range-limited random tree: the node to extend from is drawn uniformly *)
+  Lemma rl_select_lt (tree : list (St * option (nat * unit))) (i : (Z * Z) * St) : tree <> [] -> (rl_select St tree i < length tree)%nat.
+  Proof. intros H. unfold rl_select. assert (1 <= length tree)%nat by (destruct tree; [congruence|cbn; lia]). lia. Qed.
+  Theorem rlrt_solve_spec : forall starts us hits samples, starts <> [] ->
+    let tree := fst (rlrt_solve St D dlt steer mv sat gdist goal_state dflt starts us hits samples) in
+    (forall i s, nth_error tree i = Some (s, None) -> In s starts) /\
+    (forall i s p, nth_error tree i = Some (s, Some p) -> (p < i)%nat /\ exists ps pp, nth_error tree p = Some (ps, pp) /\ mv ps s = true) /\
+    match snd (rlrt_solve St D dlt steer mv sat gdist goal_state dflt starts us hits samples) with
+    | Some (path, approx, dd) =>
+        path <> [] /\ In (hd dflt path) starts /\ consecutive (fun a b => mv a b = true) path /\ dd = gdist (last path dflt) /\
+        (exists i, (length starts <= i < length tree)%nat /\ last path dflt = fst (nth i tree (dflt, None))) /\
+        (if approx then sat (last path dflt) = false /\ forall j, (length starts <= j < length tree)%nat -> dlt (gdist (fst (nth j tree (dflt, None)))) dd = false
+         else sat (last path dflt) = true)
+    | None => tree = map (fun x => (x, None)) starts
+    end.
+  Proof.
+    intros starts us hits samples Hs. unfold rlrt_solve.
+    apply (geo_solve_spec ((Z * Z) * St) (rl_select St) snd rl_select_lt starts (combine us (targets St goal_state dflt hits samples)) Hs).
   Qed.
 End RrtG.
 
@@ -304,6 +345,7 @@ Section RrtC.
     report_ok St Z (C * nat) sat gdist Z.ltb dflt cEdge starts (length starts) tree (snd (crrt_solve St C stepf valid dist sat gdist dflt minDur starts ins)).
   Proof.
     intros starts ins Hs. unfold crrt_solve.
-    apply (tree_solve_spec St Z (citer St C) (C * nat) dist Z.ltb fst (crrt_extend St C stepf valid dist minDur) sat gdist dflt cEdge zltb_trans Z.ltb_irrefl crrt_extend_ok starts ins Hs).
+    apply (tree_solve_spec St Z (citer St C) (C * nat) Z.ltb (fun tree i => nearest St Z (C * nat) dist Z.ltb tree (fst i)) (crrt_extend St C stepf valid dist minDur) sat gdist dflt cEdge zltb_trans Z.ltb_irrefl crrt_extend_ok
+             (fun tree i H => nearest_lt St Z (C * nat) dist Z.ltb tree (fst i) H) starts ins Hs).
   Qed.
 End RrtC.
